@@ -47,7 +47,9 @@ func (s resendState) FixMsgIn(session *session, msg *Message) (nextState session
 		return
 	}
 
-	if s.currentResendRangeEnd != 0 && s.currentResendRangeEnd < session.store.NextTargetMsgSeqNum() {
+	// Request the next chunk only while part of the gap is still missing.
+	if s.currentResendRangeEnd != 0 && s.currentResendRangeEnd < session.store.NextTargetMsgSeqNum() &&
+		session.store.NextTargetMsgSeqNum() <= s.resendRangeEnd {
 		nextResendState, err := session.sendResendRequest(session.store.NextTargetMsgSeqNum(), s.resendRangeEnd)
 		if err != nil {
 			return handleStateError(session, err)
